@@ -81,8 +81,10 @@ Proof. exact reachable_consistent_check. Qed.
    first write of anything; (R2) a member function carries the guard iff the model's setter of the same name is
    `guarded`; (R3) every non-const member function that writes anything at all is one of the fourteen setters of Api.v,
    a placement entry point (which writes nothing but the in-use flag) or one of the two expansion functions (C18; they
-   write widths only) -- so a setter added to the code, a guard dropped or moved behind a write, all break this
-   theorem even when no generated scenario calls that function inside a callback. *)
+   write widths only); (R4) a placement entry point takes the in-use flag (constructs its guard on isInUse_) BEFORE
+   it hands *this to the algorithms (a shortcut path placed above the guard breaks it) -- so a setter added to the
+   code, a guard dropped or moved behind a write, all break this theorem even when no generated scenario calls that
+   function inside a callback. *)
 Theorem c10_structural_setters_guarded_in_source : methods_ok circuit_methods.
 Proof. exact (circuit_methods_okb_sound circuit_methods (eq_refl true)). Qed.
 
